@@ -51,6 +51,7 @@ func storeValue(id string) []byte {
 		storeVals["d1c"] = append(append([]byte{}, storeVals["d1"]...), storeVals["dc"]...) // d1 is a proper prefix
 		storeVals["big"] = prbytes("big-value", 20000) // larger than any buffered-writer default (C11: still exactly one write)
 		storeVals["b4093"] = prbytes("b4093", 4093)
+		storeVals["huge"] = prbytes("huge-value", 70000) // more than 64 KiB
 		storeVals["d2"] = mk([3]string{"sha256", "o2", "h2"}, [3]string{"sha256", "o1", "h2"})
 	}
 	return storeVals[id]
